@@ -115,7 +115,7 @@ impl Property for C11 {
         "C11"
     }
     fn rule(&self) -> String {
-        "cases: macro-free strings by construction (weighted Unicode text, open-code fragment soup, numeric spellings, real-world windows; every '%'/'&' is separated from a following trigger), plus the exhaustive sweep over all triples of symbol characters in two statement positions; compared: (type, channel, byte offset)* and (error kind, offset)* against the reference lexer; distinct = distinct source; non-trivial = at least 4 tokens of at least 3 types and not a verbatim test-suite literal".into()
+        "cases: macro-free strings by construction (weighted Unicode text, open-code fragment soup, numeric spellings, real-world windows; every '%'/'&' is separated from a following trigger), plus the exhaustive sweeps over all triples of symbol characters in two statement positions and over every open-code keyword with every kind of neighbour and every ASCII name character in every identifier position; compared: (type, channel, byte offset)* and (error kind, offset)* against the reference lexer; distinct = distinct source; non-trivial = at least 4 tokens of at least 3 types and not a verbatim test-suite literal".into()
     }
     fn cases(&self, tier: Tier) -> u64 {
         match tier {
@@ -156,10 +156,63 @@ impl Property for C11 {
         vd
     }
     fn sweeps(&self, _tier: Tier, _seed: u64) -> Vec<Box<dyn Sweep>> {
-        vec![Box::new(SymTriples)]
+        vec![Box::new(SymTriples), Box::new(KeywordNeighbours)]
     }
     fn assumptions(&self) -> Vec<String> {
         vec!["the reference lexer in harness/src/oracle/reflex.rs is the executable form of the grammar (DESIGN 4.5); it was validated against the implementation and every disagreement traced to code comments/tests".into()]
+    }
+}
+
+/// every open-code keyword with every kind of neighbour (a word that merely starts or ends with a keyword is an
+/// identifier), and every ASCII letter / digit / '_' as first, second and last character of an identifier
+pub struct KeywordNeighbours;
+impl KeywordNeighbours {
+    fn words() -> Vec<String> {
+        let mut w: Vec<String> = vec![];
+        for &t in crate::api::all_token_types() {
+            if crate::oracle::kw::is_kw(t) {
+                w.extend(crate::oracle::kw::keywords_of(t).into_iter().map(|k| k.to_ascii_lowercase()));
+            }
+        }
+        w.sort();
+        w.dedup();
+        w
+    }
+}
+impl Sweep for KeywordNeighbours {
+    fn name(&self) -> String {
+        format!("exhaustive: each of the {} open-code keywords alone, in upper case, with a letter / digit / '_' / '.' / '(' / ';' glued before or after it, doubled, and every ASCII name character as first, second and last character of an identifier", Self::words().len())
+    }
+    fn chunks(&self) -> usize {
+        Self::words().len() + 1
+    }
+    fn run_chunk(&self, chunk: usize, f: &mut dyn FnMut(Case)) {
+        let words = Self::words();
+        if chunk == words.len() {
+            for c in "abcdefghijklmnopqrstuvwxyzABCDEFGHIJKLMNOPQRSTUVWXYZ_0123456789".chars() {
+                for t in [format!("{c}"), format!("{c}a"), format!("a{c}"), format!("a{c}b"), format!("x = {c}q + q{c};"), format!("ab{c} {c}ab ({c}) {c}.{c} {c}{c}")] {
+                    if is_macro_free(&t) {
+                        f(Case::text("alphabet", t));
+                    }
+                }
+            }
+            return;
+        }
+        let k = &words[chunk];
+        let up = k.to_ascii_uppercase();
+        let mut cap = k.clone();
+        cap[..1].make_ascii_uppercase();
+        for t in [
+            k.clone(), up.clone(), cap, format!("{k};"), format!("{k} x;"), format!("x {k} y"), format!("{k}x"), format!("x{k}"), format!("{k}1"), format!("{k}_"), format!("_{k}"), format!("{k}.{k}"),
+            format!("{k}({k})"), format!("{k}{k}"), format!("{k} {k}"), format!("{up}X {up}_1 a{up}"), format!("{k}é é{k}"), format!("a.{k} {k}.a"), format!("{k}=1; x={k};"), format!("'{k}' \"{k}\" {k}"),
+        ] {
+            if is_macro_free(&t) {
+                f(Case::text("keyword-neighbours", t));
+            }
+        }
+    }
+    fn exhaustive(&self) -> bool {
+        true
     }
 }
 
